@@ -1048,6 +1048,11 @@ pub mod verif_hooks {
         super::glob::Pattern::new(pattern, caseless).matches(subject)
     }
 
+    /// The error with which the engine behind the glob matcher gives up on `subject`, if it does.
+    pub fn glob_match_error(pattern: &str, subject: &str, caseless: bool) -> Option<String> {
+        super::glob::Pattern::new(pattern, caseless).match_error(subject)
+    }
+
     /// One compiled glob applied to many subjects (bounded-exhaustive enumeration).
     pub fn glob_match_many(pattern: &str, subjects: &[&str], caseless: bool) -> Vec<bool> {
         let p = super::glob::Pattern::new(pattern, caseless);
